@@ -192,13 +192,16 @@ def load_traces(path):
     return tr
 
 
-def validate(module, cfg, workdir, trace_file, timeout=3600, heap=None):
+def validate(module, cfg, workdir, trace_file, timeout=3600, heap=None, env=None):
     """TLC trace validation (one initial state per trace).  Returns (n_traces, rejections) where a
     rejection is dict(t, k, ev, inv)."""
     n_lines = sum(1 for _ in open(trace_file))
     if n_lines == 0:
         raise Inconclusive("empty trace file " + trace_file)
-    r = run_tlc(module, cfg, workdir, workers=1, env={"TRACE_FILE": trace_file}, timeout=timeout, heap=heap)
+    e = {"TRACE_FILE": trace_file}
+    if env:
+        e.update(env)
+    r = run_tlc(module, cfg, workdir, workers=1, env=e, timeout=timeout, heap=heap)
     out = r["out"]
     m = re.search(r'<<"TRACES", (\d+), "REJECTED", (\d+)>>', out)
     if not r["ok"] or not m:
